@@ -71,9 +71,16 @@ def cases(draw, tier):
             o['display'] = d.int(0, p)
         case['options'] = o
         return dict(kind='count0', case=case)
-    case = draw(gen.election_cases(tier='quick', rules=('wigm', 'meek', 'warren'), equal_for_meek=True, default_options=True))
-    p = d.int(2, 18)
-    g = d.int(1, 12)
+    if d.p(25):
+        # tallies a few thousandths apart at a coarse precision: comparisons near the tolerance do occur and the count's own
+        # statistics have to own up to them (only then is "far from the tolerance" worth anything)
+        case = gen.near_tie_case(d)
+        p = d.int(1, 3)
+        g = d.int(1, 5)
+    else:
+        case = draw(gen.election_cases(tier='quick', rules=('wigm', 'meek', 'warren'), equal_for_meek=True, default_options=True))
+        p = d.int(1, 3) if d.p(20) else d.int(2, 18)
+        g = d.int(1, 12)
     o = {'precision': p, 'guard': g}
     if case['rule'] != 'wigm':
         o['omega'] = d.int(0, p // 2)
@@ -317,7 +324,7 @@ def valid_case(case):
             return False
         if case['kind'] == 'count0' and c['rule'] != 'wigm' and c['options'].get('precision', 0) < 1:
             return False
-        if case['kind'] == 'countq' and (c['options'].get('guard', 0) < 1 or c['options'].get('precision', 0) < 2
+        if case['kind'] == 'countq' and (c['options'].get('guard', 0) < 1 or c['options'].get('precision', 0) < 1
                                           or c['options'].get('omega', 0) > c['options']['precision'] // 2):
             return False
         if c['rule'] != 'wigm' and c['options'].get('omega', 0) > c['options'].get('precision', 0):
